@@ -237,6 +237,10 @@ func runC15(c *Ctx) {
 		c.Check("C15.K2", "header-decoder:strict", n > 0 && bad == 0, 0, fmt.Sprintf("%d decode(s) of a JOSE header map on the parse / verify paths, all with the duplicate-refusing decoder", n))
 	}
 	c.Min("C15.K2", 2)
+
+	// "verifies under the matching public JWK": the JWK the library produces for a key (fixed-width coordinates, curve
+	// marking, strict reading) is the subject of C16; those rules are part of this check as well
+	runC16(c)
 	c.Assume("ECDSA/EdDSA soundness; go-jose key decoding; specification table of curve bit sizes encoded in the checker")
 }
 
@@ -378,6 +382,95 @@ func runC16(c *Ctx) {
 		c.Check("C16.G2", "unmarshal:no-other-rejection", len(extra) == 0 && len(rs) >= 5, us.Pos(), fmt.Sprintf("unmarshalSecp256k1 rejects for exactly: missing X/Y, width of X/Y/D, point off the curve (%d deciding conditions found)", len(rs)), extra...)
 	}
 	c.Min("C16.G2", 1)
+
+	// ---- K2 big-endian byte strings of big integers drop leading zero bytes: every (*big.Int).Bytes() result in the key
+	// and signature code goes straight into a right-aligning sink (a padding helper of the module, or btcec's
+	// SetByteSlice) — never into copy / append / an encoder, which would left-align or shorten a short coordinate
+	{
+		n := 0
+		for _, rel := range []string{"jwsutil", "util/pubkey", "util/ecsigner", "util/edsigner"} {
+			sp := c.SPkg[modPkg+rel]
+			if sp == nil {
+				continue
+			}
+			for _, f := range allFuncs(sp) {
+				forEachInstr(f, func(in ssa.Instruction) {
+					cl, ok := in.(*ssa.Call)
+					if !ok || cl.Call.StaticCallee() == nil || cl.Call.StaticCallee().String() != "(*math/big.Int).Bytes" {
+						return
+					}
+					n++
+					var bad []string
+					for _, r := range *cl.Referrers() {
+						okUse := false
+						if u, isC := r.(*ssa.Call); isC {
+							if bi, isB := u.Call.Value.(*ssa.Builtin); isB && bi.Name() == "len" {
+								okUse = true
+							}
+							if g := u.Call.StaticCallee(); g != nil {
+								switch {
+								case strings.HasSuffix(g.String(), "FieldVal).SetByteSlice"), strings.HasSuffix(g.String(), "ModNScalar).SetByteSlice"):
+									okUse = true
+								case inModule(g) && len(u.Call.Args) == 2 && u.Call.Args[0] == ssa.Value(cl) && c.leftPads(g):
+									okUse = true
+								}
+							}
+						}
+						if _, isDbg := r.(*ssa.DebugRef); isDbg {
+							okUse = true
+						}
+						if !okUse {
+							bad = append(bad, r.String())
+						}
+					}
+					c.Check("C16.K2", "big-int-bytes:"+short(f.String())+":"+c.Path(cl.Call.Args[0], nil), len(bad) == 0, cl.Pos(), fmt.Sprintf("Bytes() of %s is used only by right-aligning sinks %v", c.Path(cl.Call.Args[0], nil), bad))
+				})
+			}
+		}
+		c.Check("C16.K2", "big-int-bytes:sites", n >= 8, 0, fmt.Sprintf("%d (*big.Int).Bytes() sites in the key / signature packages", n))
+	}
+	c.Min("C16.K2", 9)
+
+	// ---- G3 a coordinate read from JSON is exactly what its base64url text decodes to: the width checks of G1 are about
+	// len(data), so data must be the decoder's own result (DecodeString, or buf[:n] with n from Decode) — a pre-sized
+	// buffer kept at full length would turn a short coordinate plus skipped characters into one of the right width
+	if bu := c.Method("jwsutil", "byteBuffer", "UnmarshalJSON"); bu != nil {
+		c.Analysed(bu)
+		var stored []ssa.Value
+		forEachInstr(bu, func(in ssa.Instruction) {
+			st, ok := in.(*ssa.Store)
+			if !ok {
+				return
+			}
+			if fa, isFA := st.Addr.(*ssa.FieldAddr); isFA && fieldName(fa.X.Type(), fa.Field) == "data" {
+				stored = append(stored, st.Val)
+			}
+		})
+		okD := len(stored) > 0
+		var got []string
+		for _, v := range stored {
+			p := c.Path(v, nil)
+			got = append(got, p)
+			exact := strings.HasPrefix(p, "(*encoding/base64.Encoding).DecodeString(global:encoding/base64.RawURLEncoding,") && strings.HasSuffix(p, ")#0")
+			if sl, isSl := v.(*ssa.Slice); isSl && sl.Low == nil && sl.High != nil {
+				hp := c.Path(sl.High, nil)
+				if strings.HasPrefix(hp, "(*encoding/base64.Encoding).Decode(global:encoding/base64.RawURLEncoding,") && strings.HasSuffix(hp, ")#0") {
+					exact = true
+				}
+			}
+			if !exact {
+				okD = false
+			}
+		}
+		c.Check("C16.G3", "byteBuffer:data-is-exactly-the-decoded-bytes", okD, bu.Pos(), fmt.Sprintf("byteBuffer.data = %v (expected the result of RawURLEncoding.DecodeString, or buf[:n] with n returned by Decode)", got))
+		b64D := c.MethodIn("encoding/base64", "Encoding", "DecodeString")
+		if b64D != nil {
+			c.CheckGuard("C16.G3", "byteBuffer:decode-error-propagated", bu, Env{}, anyOf("base64 decode ok, or empty text", callTo("DecodeString", b64D), callTo("Decode", c.MethodIn("encoding/base64", "Encoding", "Decode")), cmpAccept(`encoded == ""`, token.EQL, func(s string) bool { return strings.HasPrefix(s, "decoded(") }, pathIs(`""`))))
+		}
+	} else {
+		c.Unresolved("C16.G3", "(*jwsutil.byteBuffer).UnmarshalJSON")
+	}
+	c.Min("C16.G3", 2)
 
 	// ---- T1
 	gp := c.Fn("util/pubkey", "GetPublicKeyJWK")
@@ -727,4 +820,38 @@ func (c *Ctx) signerVerifierTables(rule string) bool {
 	}
 
 	return true
+}
+
+// leftPads: g(data []byte, n int) returns a fresh n-byte slice with data copied to its end (offset n-len(data)), or
+// data itself when it already has that length — the padding helpers the JWK and signature code use.
+func (c *Ctx) leftPads(g *ssa.Function) bool {
+	if g.Blocks == nil || len(g.Params) != 2 {
+		return false
+	}
+	okCopy := false
+	forEachInstr(g, func(in ssa.Instruction) {
+		cl, ok := in.(*ssa.Call)
+		if !ok {
+			return
+		}
+		bi, isB := cl.Call.Value.(*ssa.Builtin)
+		if !isB || len(cl.Call.Args) != 2 {
+			return
+		}
+		switch bi.Name() {
+		case "copy":
+			// dest := make([]byte, n); copy(dest[n-len(data):], data)
+			if sl, isSl := cl.Call.Args[0].(*ssa.Slice); isSl && cl.Call.Args[1] == ssa.Value(g.Params[0]) && sl.Low != nil && sl.High == nil {
+				if ms, isMS := sl.X.(*ssa.MakeSlice); isMS && c.Path(ms.Len, nil) == "$1" && c.Path(sl.Low, nil) == "($1 - len($0))" {
+					okCopy = true
+				}
+			}
+		case "append":
+			// append(make([]byte, n-len(data)), data...)
+			if ms, isMS := cl.Call.Args[0].(*ssa.MakeSlice); isMS && cl.Call.Args[1] == ssa.Value(g.Params[0]) && c.Path(ms.Len, nil) == "($1 - len($0))" {
+				okCopy = true
+			}
+		}
+	})
+	return okCopy
 }
